@@ -33,6 +33,9 @@ DigitValue == [c \in DigitSet |-> CHOOSE d \in 0..9 : ToString(d) = c]
 RECURSIVE Nat10(_)
 Nat10(t) == IF Len(t) = 0 THEN 0 ELSE 10 * Nat10(SubSeq(t, 1, Len(t) - 1)) + DigitValue[Chr(t, Len(t))]
 IsNat(t) == Len(t) > 0 /\ Len(t) <= 9 /\ \A i \in 1..Len(t) : Chr(t, i) \in DigitSet
+IsDigits(t) == Len(t) > 0 /\ \A i \in 1..Len(t) : Chr(t, i) \in DigitSet       \* any width: atom indices are only compared
+RECURSIVE NormIdx(_)
+NormIdx(t) == IF Len(t) > 1 /\ Chr(t, 1) = "0" THEN NormIdx(SubSeq(t, 2, Len(t))) ELSE t   \* "007" and "7" are one index
 IsInt(t) == IsNat(t) \/ (Len(t) > 1 /\ Chr(t, 1) \in {"-", "+"} /\ IsNat(SubSeq(t, 2, Len(t))))
 Int10(t) == IF Chr(t, 1) = "-" THEN 0 - Nat10(SubSeq(t, 2, Len(t)))
             ELSE IF Chr(t, 1) = "+" THEN Nat10(SubSeq(t, 2, Len(t))) ELSE Nat10(t)
@@ -73,11 +76,11 @@ DecodeV3000(rawlines) ==
   IF Len(ls) < 8 + na \/ SubSeq(T[7], 3, Len(T[7])) # <<"BEGIN", "ATOM">>
      \/ SubSeq(T[8 + na], 3, Len(T[8 + na])) # <<"END", "ATOM">> THEN DErr("atomblock") ELSE
   LET aline(k) == T[7 + k]                                     \* k in 1..na
-      wellformed(k) == Len(aline(k)) >= 7 /\ IsNat(aline(k)[3])
+      wellformed(k) == Len(aline(k)) >= 7 /\ IsDigits(aline(k)[3])
   IN IF \E k \in 1..na : ~wellformed(k) THEN DErr("atomline") ELSE
   LET isStar(k) == aline(k)[4] = "*"
       real == SetToSortSeq({k \in 1..na : ~isStar(k)}, <)
-      idxOf(k) == Nat10(aline(k)[3])
+      idxOf(k) == NormIdx(aline(k)[3])
       starIdx == {idxOf(k) : k \in {k \in 1..na : isStar(k)}}
       realIdx == {idxOf(real[j]) : j \in 1..Len(real)}
       posOfIdx == TLCEval([ix \in realIdx |-> (CHOOSE j \in 1..Len(real) : idxOf(real[j]) = ix) - 1])
@@ -90,7 +93,7 @@ DecodeV3000(rawlines) ==
   IF Len(ls) < 10 + na + nb \/ SubSeq(T[9 + na], 3, Len(T[9 + na])) # <<"BEGIN", "BOND">>
      \/ SubSeq(T[10 + na + nb], 3, Len(T[10 + na + nb])) # <<"END", "BOND">> THEN DErr("bondblock") ELSE
   LET bline(k) == T[9 + na + k]
-  IN IF \E k \in 1..nb : Len(bline(k)) < 6 \/ ~IsNat(bline(k)[4]) \/ ~IsNat(bline(k)[5]) \/ ~IsNat(bline(k)[6]) THEN DErr("bondline") ELSE
+  IN IF \E k \in 1..nb : Len(bline(k)) < 6 \/ ~IsNat(bline(k)[4]) \/ ~IsDigits(bline(k)[5]) \/ ~IsDigits(bline(k)[6]) THEN DErr("bondline") ELSE
   LET endpts(t) ==     \* the numbers inside ENDPTS=( ... ), or << >>
         LET s0 == {i \in 1..Len(t) : StartsWith(t[i], "ENDPTS=(")} IN
         IF s0 = {} THEN <<>> ELSE
@@ -99,17 +102,18 @@ DecodeV3000(rawlines) ==
                         ELSE IF i = a THEN SubSeq(t[i], 9, Len(t[i]))
                         ELSE IF i = e THEN SubSeq(t[i], 1, Len(t[i]) - 1) ELSE t[i]
             ps == SelectSeq([i \in 1..(e - a + 1) |-> piece(a + i - 1)], LAMBDA x : x # "")
-        IN [i \in 1..Len(ps) |-> Nat10(ps[i])]
+        IN ps
       bondsOf(k) ==
-        LET t == bline(k)  ty == Nat10(t[4])  a1 == Nat10(t[5])  a2 == Nat10(t[6]) IN
-        IF a1 \in starIdx /\ a2 \in starIdx THEN {<<-1, -1, 0>>}
+        LET t == bline(k)  ty == Nat10(t[4])  a1 == NormIdx(t[5])  a2 == NormIdx(t[6]) IN
+        IF a1 \in starIdx /\ a2 \in starIdx THEN {<<"!", "!", 0>>}
         ELSE IF a1 \in starIdx \/ a2 \in starIdx THEN
              LET other == IF a1 \in starIdx THEN a2 ELSE a1  ep == endpts(t) IN
-             IF ep = <<>> THEN {} ELSE IF ep[1] # Len(ep) - 1 THEN {<<-1, -1, 0>>}
-             ELSE {<<other, ep[i], ty>> : i \in 2..Len(ep)}
+             IF ep = <<>> THEN {}
+             ELSE IF ~(\A i \in 1..Len(ep) : IsDigits(ep[i])) \/ ~IsNat(ep[1]) \/ Nat10(ep[1]) # Len(ep) - 1 THEN {<<"!", "!", 0>>}
+             ELSE {<<other, NormIdx(ep[i]), ty>> : i \in 2..Len(ep)}
         ELSE {<<a1, a2, ty>>}
       rawb == UNION {bondsOf(k) : k \in 1..nb}
-  IN IF <<-1, -1, 0>> \in rawb THEN DErr("star") ELSE
+  IN IF <<"!", "!", 0>> \in rawb THEN DErr("star") ELSE
      IF \E b \in rawb : b[1] \notin realIdx \/ b[2] \notin realIdx THEN DErr("index") ELSE
      [ok |-> TRUE, atoms |-> atoms,
       bonds |-> {LET p == posOfIdx[b[1]]  q == posOfIdx[b[2]] IN
